@@ -40,6 +40,41 @@ func newSchedGen(r *RNG, tier string, profile string) *schedGen {
 		return hx(b)
 	}
 	switch profile {
+	case "c13":
+		// freelist hand-over: writers that own disjoint keys (overlapping mutators of ONE key are known finding D17) overwrite
+		// and remove, a Flush thread and a primary GC thread run alongside; accounting is checked after quiescence
+		g.ops = append(g.ops, mkOp("sopen", "bits", strconv.Itoa(bits), "ifs", strconv.Itoa(ifs), "pfs", strconv.Itoa([]int{33, 64, 200}[r.Intn(3)]), "imm", "0"))
+		nt := 2 + r.Intn(2)
+		all := genDigests(r, bits, 3*nt)
+		var allKeys []string
+		for t := 0; t < nt; t++ {
+			var mine []string
+			for j := 0; j < 3 && t*3+j < len(all); j++ {
+				k := hx(mkMultihash(0x12, all[t*3+j]))
+				mine = append(mine, k)
+				allKeys = append(allKeys, k)
+				g.ops = append(g.ops, mkOp("sprep", "op", "put:"+k+":"+val()))
+			}
+			if len(mine) == 0 {
+				continue
+			}
+			var ops []string
+			for j := 0; j < 2+r.Intn(3); j++ {
+				k := mine[r.Intn(len(mine))]
+				if r.Bool(75) {
+					ops = append(ops, "put:"+k+":"+val())
+				} else {
+					ops = append(ops, "rm:"+k)
+				}
+			}
+			g.ops = append(g.ops, mkOp("sthread", "name", fmt.Sprintf("t%d", t), "ops", strings.Join(ops, ",")))
+		}
+		g.ops = append(g.ops, mkOp("sprep", "op", "flush"))
+		g.ops = append(g.ops, mkOp("sthread", "name", "f", "ops", "flush,flush"))
+		if r.Bool(60) {
+			g.ops = append(g.ops, mkOp("sthread", "name", "g", "ops", "pgc:100"))
+		}
+		keys = allKeys
 	case "c12":
 		// rate limiting: burst 0 and a tiny measured flush rate make every writer take the waiting path
 		g.ops = append(g.ops, mkOp("sopen", "bits", strconv.Itoa(bits), "ifs", strconv.Itoa(ifs), "pfs", strconv.Itoa(pfs), "imm", "0",
@@ -137,7 +172,11 @@ func newSchedGen(r *RNG, tier string, profile string) *schedGen {
 		}
 	}
 	g.ops = append(g.ops, mkOp("srun", "sched", strings.Join(sched, ","), "max", "400"))
-	g.ops = append(g.ops, mkOp("sfinal", "k", strings.Join(keys, ",")))
+	if profile == "c13" {
+		g.ops = append(g.ops, mkOp("sfinal", "k", strings.Join(keys, ","), "acct", "1"))
+	} else {
+		g.ops = append(g.ops, mkOp("sfinal", "k", strings.Join(keys, ",")))
+	}
 	return g
 }
 
